@@ -5,8 +5,8 @@ import json
 CLAIMED = {
  "C01": ("Fold functions of the optimizer (binaryopInts/Floats, binaryop, unaryop, isLiteralFalsy) are proved against the same specArith/specUnary/specFalsy that the VM's operator methods and xOpUnary are proved against, keep the literal position and never panic, for all operand values. Not decided: completeness of shadow tracking in transform, equivalence of the private-VM evaluation (slowEvalExpr), canOptimizeInsts tables.",
          "go/ssa extraction, VC generator, solvers; strconv formatters opaque; composition from per-function contracts to whole scripts is argued in DESIGN.md, not machine-checked"),
- "C03": ("Handler-stack discipline of the try opcodes proved function by function: SETUPTRY pushes exactly one entry, SETUPCATCH/SETUPFINALLY change only the top entry and deliver the pending error once, THROW 0 without pending error removes exactly the entry being left on every path (normal completion and pending jump), findFinally pops only entries without finally (goto loop with quantified invariants), and a self-recursive tail call (frame reuse in xOpCallCompiled) leaves the frame without handlers and without pending error. Not decided: throw/handleThrownError (trusted contract), FINALIZER/RETURN arms of VM.loop, compiler side.",
-         "trusted contract for (*VM).throw; vm.curFrame and vm.frames[] are modelled as non-aliasing; the induction from opcode contracts to all programs is argued"),
+ "C03": ("Handler-stack discipline of the try opcodes proved function by function: SETUPTRY pushes exactly one entry, SETUPCATCH/SETUPFINALLY change only the top entry and deliver the pending error once, THROW 0 without pending error removes exactly the entry being left on every path (normal completion and pending jump), findFinally pops only entries without finally (goto loop with quantified invariants), and a self-recursive tail call (frame reuse in xOpCallCompiled) leaves the frame without handlers and without pending error. throw and handleThrownError are verified (no longer trusted): an error is delivered in the frame that is made current first, so a handler used up by its own finally block hands the error to the enclosing handlers of the same function. Not decided: FINALIZER/RETURN arms of VM.loop, compiler side, which frame is the nearest one with a live handler (stated only as the current-frame discipline).",
+         "vm.curFrame and vm.frames[] are modelled as non-aliasing; the induction from opcode contracts to all programs is argued"),
  "C04": ("decode(encode(x)) == x bit for bit for the scalar constant kinds Int, Uint, Char, Float (including -0.0 and NaN) and Bool: lemmas over the real MarshalBinary / UnmarshalBinary bodies. Not decided: strings, bytes, containers, compiled functions, file sets, the reader-based DecodeObject path, module re-binding, and the step from equal constants and code to equal behaviour.",
          "binary.PutVarint/Varint and PutUvarint/Uvarint trusted as mutually inverse abstract encodings of 1..10 bytes (ghost model; encoded bytes assumed not overwritten before decoding)"),
  "C05": ("Fold functions total (no division/shift panic) for all operands; MakeInstruction proved for every opcode (an instruction is produced iff the operands fit the opcode's operand table read from the source, it has the table's length and decodes back to the same operands) and ReadOperands proved against the same decoding spec; operand-table arity lemma. Not decided: the emitter's reaction to operand overflow (panic(err) in emit/changeOperand is a known open issue not yet under contract), parser and scanner totality, termination.",
@@ -19,6 +19,8 @@ CLAIMED = {
          "registry converters trusted (assumed non-nil and panic-free); sync locks no-ops"),
  "C02": ("Only the call-argument binding clause of the statement: entering a compiled function binds fixed parameters to the arguments in order, packs the remaining arguments of a variadic function into an array and leaves every other local undefined - proved for calls from Go (VM.initLocals) and for in-script calls without spread (VM.xOpCallCompiled, flags == 0) against the same clauses, including the frame re-use of a self-recursive tail call (after which the stack pointer is back below the callee slot and the abandoned slots are nil); the packed variadic array shares no storage with the caller's arguments or the stack. Everything else in the statement (evaluation order, scoping, closures, compound assignment, loops, spread calls, destructuring) is not covered; The tail-call clause is stated on the same function: a frame is re-used only when the instruction after the call is RETURN; the CALL; POP; RETURN shape (the discarded self-call returns the callee's value where ordinary recursion returns undefined) fails that clause and is the one open known finding (KNOWN-FINDING line, see known_findings.json: the repair conflicts with an existing test).",
          "call preconditions vmCallOK (callee below the arguments, frame fits the stack, a function calling itself has its locals below the callee); one parked obligation (variadic + tail call) listed in the evidence"),
+ "C06": ("The recovery path itself is total: handlePanic (called by run()'s deferred function outside any recover), throwGenErr, throw and handleThrownError never panic in any VM state satisfying vmPanicPoint (current frame exists, handlers remember non-negative stack pointers, callers' frames still have their functions) - the stack pointer, instruction pointer and frame index may be anything, including at or beyond their limits; handlePanic leaves either vm.err set or a VM state in which the loop can be re-entered. Not decided: that every panic raised inside VM.loop, builtins or callbacks reaches run()'s recover (Go semantics of defer/recover are not modelled), that vmPanicPoint holds at every instruction of VM.loop (assumed, stated in the evidence), Run's epilogue, Invoker paths, and that the VM is reusable afterwards (C07).",
+         "vmPanicPoint is an assumed invariant of VM.loop (not verified: the 60-opcode loop is outside the functions under contract); dynamic Error()/String() calls on error values and runtime.Stack assumed panic-free; recover/defer semantics not modelled"),
  "C07": ("Installing bytecode, clearing a VM and setting up frame 0 are functions of their inputs only and never write the Bytecode: SetBytecode, Clear (every stack slot nil, cache and globals dropped), initCurrentFrame, clearCurrentFrame, each with a proved frame clause listing exactly the VM fields written. Not decided: the Run prologue as a whole (two-state non-interference), OP_CLOSURE, slots above sp / frames above frameIndex never being read before written.",
          "sync locks no-ops; vmPool.clear modelled through the map component"),
  "C12": ("Module store: addModule hands out index == old count, keeps all indexes below the count and pairwise distinct (quantified invariant over the map), getModule returns the stored entry; BuiltinModule.Import returns a copy that is not the shared attribute map and carries the module name, leaving the module untouched. Not decided: LOADMODULE/STOREMODULE arms of VM.loop, compileImportExpr's emission pattern, cyclic import detection, which import executes first.",
@@ -33,7 +35,6 @@ CLAIMED = {
          "sort.Search trusted contract (calls f only inside [0,n), f(r) and !f(r-1))"),
 }
 NA = {
- "C06": "panic-freedom of the code outside the VM's recover not built yet",
  "C08": "quantifies over goroutine interleavings and data races; the sequential VC generator has no ownership or permission logic",
  "C09": "cross-goroutine abort/cancellation protocol with bounded liveness; no thread or liveness support in this family",
  "C10": "relates two compilation histories (N fragments vs one concatenation); no per-function contract expresses it",
